@@ -21,6 +21,8 @@ def configs(tier):
         add(spec('localp', 'localp', 2, 1, 2, order=1), 0, 0); add(spec('localp', 'semi-localp', 2, 2, 2, order=2), 1, 0); add(spec('localp', 'localp-zero', 2, 1, 2, order=3), 4, 0)
         add(spec('localp', 'localp-boundary', 2, 1, 2, order=1), 2, 0); add(spec('localp', 'localp', 2, 1, 2, order=2), 3, 0); add(spec('localp', 'localp', 2, 1, 3, order=0), 0, 0)
         add(spec('localp', 'localp', 3, 1, 2, order=1), 8, 0); add(spec('localp', 'localp-zero', 3, 1, 2, order=2), 8, 0); add(spec('localp', 'localp', 2, 1, 3, order=1), 8, 0)   # direct parent missing, ancestor present
+        for rule in LOCAL_RULES: add(spec('localp', rule, 3, 1, 2, order=2), 0, 0)   # complete hierarchy in 3-D: coefficients from the sparse-Kronecker path, every other route from the basis functions
+        add(spec('localp', 'localp-zero', 3, 1, 3, order=-1), 0, 0)
         add(spec('localp', 'semi-localp', 3, 1, 3, order=2), 7, 0); add(spec('localp', 'localp-boundary', 3, 1, 3, order=1), 7, 0); add(spec('localp', 'localp', 3, 1, 2, order=0), 7, 0)   # regular-parent-closed, step-parent-open subsets in 3-D
         add(spec('global', 'clenshaw-curtis', 2, 1, 2), 0, 0); add(spec('global', 'leja', 2, 2, 2), 1, 0); add(spec('global', 'gauss-legendre', 2, 1, 2), 0, 0); add(spec('global', 'clenshaw-curtis', 2, 1, 2, transform=1), 3, 0)
         add(spec('global', 'clenshaw-curtis', 2, 2, 2, transform=1), 0, 0); add(spec('sequence', 'rleja', 2, 3, 2, transform=1), 0, 0); add(spec('localp', 'localp', 2, 2, 2, order=1, transform=1), 0, 0)   # several outputs x several dimensions x a non-cubic box: the layout of the Jacobian matters
